@@ -957,9 +957,9 @@ class ExistsCriterion(Criterion):
             container=self.container.get_sql(**kwargs), not_='NOT ' if self._is_negated else ''
         )
 
+    @builder
     def negate(self):
         self._is_negated = True
-        return self
 
 
 class RangeCriterion(Criterion):
